@@ -341,8 +341,9 @@ func prefixLens(total, msglen int) []int {
 	for n := 96; n <= total; n += 61 {
 		set[n] = true
 	}
-	for _, d := range []int{-2, -1, 1, 2} {
-		for _, b := range []int{msglen, total, 2048, 4096} {
+	for _, d := range []int{-2, -1, 0, 1, 2} {
+		// (257 = one full Winbox chunk with its two header bytes; 2048 / 4096 = prefetch chunk boundaries)
+		for _, b := range []int{msglen, total, 257, 514, 2048, 4096} {
 			if x := b + d; x >= 0 && x <= total {
 				set[x] = true
 			}
